@@ -3,28 +3,35 @@
    Rust side (protocol/fetch.rs:347-441, zreader.rs): a `Message<'a>` holds `key: &'a [u8]` and
    `value: &'a [u8]`, slices INTO a buffer; nothing is copied.  The buffer is
      level 0   the response bytes, owned by `Response::raw_data`;
-     level 1   the vector a compressed batch decompressed to, owned by the partition's
-               `MessageSet::raw_data` (`Cow::Owned`);
-     level n>1 the vector a batch INSIDE a batch decompressed to: owned only by the intermediate
-               `MessageSet` whose `raw_data` `MessageSet::from_vec` drops (it keeps `ms.messages`
-               and lets the rest of `ms` go), while the lifetime was forged by `mem::transmute`.
-   Model side: Model/Ownership.v (`view_level`, `kept_alive`), Model/Responses.v (`from_slice`).
+     level n>0 the vector the n-th compressed batch followed by the decoder decompressed to.
+   The set returned by `MessageSet::from_slice` owns nothing (Borrowed) or, through
+   `MessageSet::from_vec`, one decompressed vector.  REPAIRED code: from_vec keeps the buffer the
+   messages point into (`match ms.raw_data { Owned(inner) => Owned(inner), Borrowed(_) => Owned(data) }`).
+   BEFORE the repair it always kept `data` and dropped `ms.raw_data`, so for a batch inside a batch
+   the views pointed into a freed vector (F13; `kept_alive_before_fix`).
+   Model side: Model/Ownership.v (`view_level`: where the views point; `owner_level`: what the
+   returned set owns), Model/Responses.v (`from_slice`).
 
-   What is proved (both values of `debug_build cz` and of `validate`, every truncation k):
-   - C18_level_defined / _err / _panic   `view_level` has the outcome of `from_slice`        FULL
+   What is proved (both values of `debug_build cz` and of `validate`):
+   - C18_views_owned_always               ALL inputs, no hypothesis: the buffer the views point
+                                          into is exactly the one the result owns (level 0 = the
+                                          response buffer); errors and panics coincide         FULL
+   - C18_owner_is_view_level              the converse reading (owner as a function of level)   FULL
+   - C18_level_defined / _err / _panic, C18_owner_defined / _err / _panic
+                                          `view_level`, `owner_level` have the outcome of
+                                          `from_slice`                                         FULL
    - C18_plain_views_in_response          uncompressed set: level 0                            FULL
    - C18_wrapper_views_owned              one head batch of plain messages: level 1            FULL
-   - C18_views_owned                      at most one wrapper followed: buffer kept alive      FULL
-   - C18_level_le_depth, C18_views_owned_depth1
-                                          EVERY well-formed set (also class `Known`): the level
-                                          is defined and <= the nesting depth of the set; hence
-                                          nesting depth <= 1 implies the buffer is kept alive   FULL
+   - C18_views_owned, C18_views_owned_depth1, C18_level_le_depth
+                                          serialised well-formed sets (also class `Known`), every
+                                          truncation k: level defined, owned, <= nesting depth  FULL
    - C18_level_is_chain_depth             head-chain sets: level = number of head wrappers     FULL
    - C18_zread_exact, C18_zread_i8_in_bounds, C18_views_layout, C18_views_are_subslices
                                           every view is a sub-slice, in bounds, byte-identical FULL
-   What is false and refuted with a concrete witness:
-   - C18_nested_dangling_refuted          a batch inside a batch: messages are returned whose
-                                          views point into a vector nobody owns (level 2), F13. *)
+   Documentation of the old defect (true statement about the old ownership rule):
+   - C18_nested_dangling_before_fix       a batch inside a batch: messages are returned whose
+                                          views point into level 2, which the old from_vec did
+                                          not keep (`kept_alive_before_fix 2 = false`). *)
 From KV Require Import Base.Prelude Base.Crc32 Base.Snappy Gen.Consts
                        Model.Codecs Model.Requests Model.Responses Model.Ownership
                        Spec.MsgSetSpec Proofs.BytesFacts Proofs.C02Lemmas Proofs.C02Facts.
@@ -156,8 +163,8 @@ Qed.
    `Response::raw_data` or `MessageSet::raw_data` (both private, `#[allow(dead_code)]` on the
    latter), and (2) the buffers are never written after parsing (`from_vec` moves `data` into
    `Cow::Owned(data)`; moving a `Vec` does not move its heap block).  So "unchanged" reduces to
-   "alive", which is what `kept_alive (view_level ...)` states below, and "byte-identical at parse
-   time", which is C18_views_layout. *)
+   "alive", which is what C18_views_owned_always states below (the result owns the buffer of level
+   `view_level ...`), and "byte-identical at parse time", which is C18_views_layout. *)
 
 (* ====================================================================== *)
 (* 2. view_level follows the decoder                                       *)
@@ -262,6 +269,138 @@ Proof.
       [contradiction|contradiction|subst; reflexivity].
   - destruct (from_slice cz depth validate req bs) as [ms|e|w']; cbn [same_outcome] in A;
       [contradiction|contradiction|subst; reflexivity].
+Qed.
+
+(* ====================================================================== *)
+(* 2b. the result owns the buffer its views point into (repaired from_vec)  *)
+(* ====================================================================== *)
+
+(* the closure handed to the loop by owner_level (`from_vec` inlined) *)
+Definition owner_inner_of (cz : codecs) (d : nat) (validate : bool) : Z -> bytes -> res (option nat) :=
+  fun c v =>
+    if c =? COMPRESSION_GZIP then
+      match gz_decompress cz v with
+      | Some data => let* o := owner_level cz d validate data in
+                     Ok (Some (match o with None => 1%nat | Some l => S l end))
+      | None => Err (EIo IoOther)
+      end
+    else if alloc_limit <=? xerial_max_alloc v then alloc_panic
+    else
+      let* data := xerial_read_to_end v in
+      let* o := owner_level cz d validate data in
+      Ok (Some (match o with None => 1%nat | Some l => S l end)).
+
+Lemma owner_level_S cz d validate bs :
+  owner_level cz (S d) validate bs
+  = owner_loop (owner_inner_of cz d validate) (debug_build cz) validate (S (length bs)) bs.
+Proof. reflexivity. Qed.
+
+Lemma level_of_owner_loop (g : option nat -> nat) inner1 inner2 dbg validate :
+  g None = O ->
+  (forall c v, inner2 c v = let* o := inner1 c v in Ok (g o)) ->
+  forall fuel bs,
+    level_loop inner2 dbg validate fuel bs
+    = let* o := owner_loop inner1 dbg validate fuel bs in Ok (g o).
+Proof.
+  intros Hg Hin. induction fuel as [|f IH]; intros bs.
+  - destruct bs; cbn [level_loop owner_loop bind]; [rewrite Hg|]; reflexivity.
+  - destruct bs as [|b bs]; [cbn [level_loop owner_loop bind]; rewrite Hg; reflexivity|].
+    cbn [level_loop owner_loop].
+    destruct (next_message dbg validate (b :: bs)) as [[[off [[attr k] v]] r]|e|w].
+    + destruct (Z.land attr 7 =? COMPRESSION_NONE); [apply IH|].
+      destruct ((Z.land attr 7 =? COMPRESSION_GZIP) || (Z.land attr 7 =? COMPRESSION_SNAPPY));
+        [apply Hin|reflexivity].
+    + destruct e; cbn [bind]; rewrite ?Hg; reflexivity.
+    + reflexivity.
+Qed.
+
+Lemma owner_of_level_loop (h : nat -> option nat) inner1 inner2 dbg validate :
+  h O = None ->
+  (forall c v, inner1 c v = let* l := inner2 c v in Ok (h l)) ->
+  forall fuel bs,
+    owner_loop inner1 dbg validate fuel bs
+    = let* l := level_loop inner2 dbg validate fuel bs in Ok (h l).
+Proof.
+  intros Hh Hin. induction fuel as [|f IH]; intros bs.
+  - destruct bs; cbn [level_loop owner_loop bind]; [rewrite Hh|]; reflexivity.
+  - destruct bs as [|b bs]; [cbn [level_loop owner_loop bind]; rewrite Hh; reflexivity|].
+    cbn [level_loop owner_loop].
+    destruct (next_message dbg validate (b :: bs)) as [[[off [[attr k] v]] r]|e|w].
+    + destruct (Z.land attr 7 =? COMPRESSION_NONE); [apply IH|].
+      destruct ((Z.land attr 7 =? COMPRESSION_GZIP) || (Z.land attr 7 =? COMPRESSION_SNAPPY));
+        [apply Hin|reflexivity].
+    + destruct e; cbn [bind]; rewrite ?Hh; reflexivity.
+    + reflexivity.
+Qed.
+
+(* MAIN: for ALL inputs (any bytes, any depth bound, both build modes, CRC validation on or off):
+   whenever decoding succeeds, the buffer the exposed views point into (level l) is exactly the
+   one the returned set owns - `None` = nothing owned = the views point into the input itself,
+   i.e. level 0, the response buffer owned by Response::raw_data - and errors / panics coincide. *)
+Theorem C18_views_owned_always : forall cz depth validate bs,
+  view_level cz depth validate bs
+  = (let* o := owner_level cz depth validate bs in
+     Ok (match o with None => 0%nat | Some l => l end)).
+Proof.
+  intros cz depth validate. induction depth as [|d IH]; intros bs; [reflexivity|].
+  rewrite view_level_S, owner_level_S. apply level_of_owner_loop; [reflexivity|].
+  intros c v. unfold level_inner_of, owner_inner_of.
+  destruct (c =? COMPRESSION_GZIP).
+  - destruct (gz_decompress cz v) as [data|]; [|reflexivity].
+    rewrite IH. destruct (owner_level cz d validate data) as [[l|]|e|w]; reflexivity.
+  - destruct (alloc_limit <=? xerial_max_alloc v); [reflexivity|].
+    destruct (xerial_read_to_end v) as [data|e|w]; cbn [bind]; [|reflexivity|reflexivity].
+    rewrite IH. destruct (owner_level cz d validate data) as [[l|]|e|w]; reflexivity.
+Qed.
+
+(* the converse reading: what is owned is determined by the level; in particular the owned level
+   is never `Some 0` (the response buffer is owned by the Response, not by a MessageSet) *)
+Theorem C18_owner_is_view_level : forall cz depth validate bs,
+  owner_level cz depth validate bs
+  = (let* l := view_level cz depth validate bs in
+     Ok (if Nat.eqb l 0 then None else Some l)).
+Proof.
+  intros cz depth validate. induction depth as [|d IH]; intros bs; [reflexivity|].
+  rewrite view_level_S, owner_level_S.
+  apply (owner_of_level_loop (fun l => if Nat.eqb l 0 then None else Some l)); [reflexivity|].
+  intros c v. unfold level_inner_of, owner_inner_of.
+  destruct (c =? COMPRESSION_GZIP).
+  - destruct (gz_decompress cz v) as [data|]; [|reflexivity].
+    rewrite IH. destruct (view_level cz d validate data) as [[|n]|e|w]; reflexivity.
+  - destruct (alloc_limit <=? xerial_max_alloc v); [reflexivity|].
+    destruct (xerial_read_to_end v) as [data|e|w]; cbn [bind]; [|reflexivity|reflexivity].
+    rewrite IH. destruct (view_level cz d validate data) as [[|n]|e|w]; reflexivity.
+Qed.
+
+Lemma owner_of_view_level cz depth validate bs l :
+  view_level cz depth validate bs = Ok l ->
+  owner_level cz depth validate bs = Ok (if Nat.eqb l 0 then None else Some l).
+Proof. intros H. rewrite C18_owner_is_view_level, H. reflexivity. Qed.
+
+(* owner_level is defined exactly when from_slice is, and fails alike *)
+Theorem C18_owner_defined : forall cz depth validate req bs,
+  (exists ms, from_slice cz depth validate req bs = Ok ms)
+  <-> (exists o, owner_level cz depth validate bs = Ok o).
+Proof.
+  intros cz depth validate req bs. rewrite C18_level_defined. split.
+  - intros [l H]. apply owner_of_view_level in H. eauto.
+  - intros [o H]. rewrite C18_views_owned_always, H. cbn [bind]. eauto.
+Qed.
+
+Theorem C18_owner_err : forall cz depth validate req bs e,
+  from_slice cz depth validate req bs = Err e <-> owner_level cz depth validate bs = Err e.
+Proof.
+  intros cz depth validate req bs e. rewrite C18_level_err. split; intros H.
+  - rewrite C18_owner_is_view_level, H. reflexivity.
+  - rewrite C18_views_owned_always, H. reflexivity.
+Qed.
+
+Theorem C18_owner_panic : forall cz depth validate req bs w,
+  from_slice cz depth validate req bs = Panic w <-> owner_level cz depth validate bs = Panic w.
+Proof.
+  intros cz depth validate req bs w. rewrite C18_level_panic. split; intros H.
+  - rewrite C18_owner_is_view_level, H. reflexivity.
+  - rewrite C18_views_owned_always, H. reflexivity.
 Qed.
 
 (* ====================================================================== *)
@@ -424,15 +563,22 @@ Section C18.
   Theorem C18_views_owned : forall cz d validate es k,
     codec_ok cz comp -> one_wrapper es ->
     exists l, view_level cz (S (S d)) validate (firstn k (ser comp es)) = Ok l
-              /\ kept_alive l = true.
+              /\ owner_level cz (S (S d)) validate (firstn k (ser comp es))
+                 = Ok (if Nat.eqb l 0 then None else Some l)
+              /\ (l <= 1)%nat.
   Proof.
-    intros cz d validate es k Hc [es' Hp Hwf|c off inner rest Hp Hwf].
-    - exists 0%nat. split; [apply C18_plain_views_in_response; assumption|reflexivity].
-    - destruct (Nat.leb (length (ser_entry comp (Wrapper c off inner))) k) eqn:E.
-      + apply Nat.leb_le in E. exists 1%nat.
-        split; [apply C18_wrapper_views_owned; assumption|reflexivity].
-      + apply Nat.leb_gt in E. exists 0%nat.
-        split; [apply view_level_wrapper_cut; assumption|reflexivity].
+    intros cz d validate es k Hc Hone.
+    assert (H : exists l, view_level cz (S (S d)) validate (firstn k (ser comp es)) = Ok l
+                          /\ (l <= 1)%nat).
+    { destruct Hone as [es' Hp Hwf|c off inner rest Hp Hwf].
+      - exists 0%nat. split; [apply C18_plain_views_in_response; assumption|lia].
+      - destruct (Nat.leb (length (ser_entry comp (Wrapper c off inner))) k) eqn:E.
+        + apply Nat.leb_le in E. exists 1%nat.
+          split; [apply C18_wrapper_views_owned; assumption|lia].
+        + apply Nat.leb_gt in E. exists 0%nat.
+          split; [apply view_level_wrapper_cut; assumption|lia]. }
+    destruct H as [l [H1 H2]]. exists l.
+    split; [exact H1|]. split; [apply owner_of_view_level; exact H1|exact H2].
   Qed.
 
   (* ---- every well-formed set: the level never exceeds the nesting depth ----------------- *)
@@ -489,9 +635,7 @@ Section C18.
         exists 0%nat. split; [reflexivity|lia].
   Qed.
 
-  (* Every well-formed set (also of class `Known`), any truncation point: the level is defined
-     and bounded by the nesting depth of the set. *)
-  Theorem C18_level_le_depth : forall cz validate,
+  Lemma level_le_depth : forall cz validate,
     codec_ok cz comp ->
     forall fuel es k, wf_entries comp es -> (depth es < fuel)%nat ->
     exists l, view_level cz fuel validate (firstn k (ser comp es)) = Ok l /\ (l <= depth es)%nat.
@@ -501,15 +645,33 @@ Section C18.
     apply (level_loop_bound cz validate d Hc IH); [assumption|lia|lia].
   Qed.
 
-  (* so: no batch inside a batch => whatever is exposed points into a buffer the result owns *)
+  (* Every well-formed set (also of class `Known`), any truncation point: the level is defined,
+     the returned set owns that buffer, and the level is bounded by the nesting depth of the set. *)
+  Theorem C18_level_le_depth : forall cz validate,
+    codec_ok cz comp ->
+    forall fuel es k, wf_entries comp es -> (depth es < fuel)%nat ->
+    exists l, view_level cz fuel validate (firstn k (ser comp es)) = Ok l
+              /\ owner_level cz fuel validate (firstn k (ser comp es))
+                 = Ok (if Nat.eqb l 0 then None else Some l)
+              /\ (l <= depth es)%nat.
+  Proof.
+    intros cz validate Hc fuel es k Hwf Hd.
+    destruct (level_le_depth cz validate Hc fuel es k Hwf Hd) as [l [H1 H2]].
+    exists l. split; [exact H1|]. split; [apply owner_of_view_level; exact H1|exact H2].
+  Qed.
+
+  (* no batch inside a batch: what is exposed points into the response buffer or into the one
+     decompressed vector the partition's MessageSet owns (this was the safe class before the fix) *)
   Theorem C18_views_owned_depth1 : forall cz d validate es k,
     codec_ok cz comp -> wf_entries comp es -> (depth es <= 1)%nat ->
     exists l, view_level cz (S (S d)) validate (firstn k (ser comp es)) = Ok l
-              /\ kept_alive l = true.
+              /\ owner_level cz (S (S d)) validate (firstn k (ser comp es))
+                 = Ok (if Nat.eqb l 0 then None else Some l)
+              /\ (l <= 1)%nat.
   Proof.
     intros cz d validate es k Hc Hwf Hd.
-    destruct (C18_level_le_depth cz validate Hc (S (S d)) es k Hwf) as [l [H1 H2]]; [lia|].
-    exists l. split; [exact H1|]. unfold kept_alive. apply Nat.leb_le. lia.
+    destruct (C18_level_le_depth cz validate Hc (S (S d)) es k Hwf) as [l [H1 [H2 H3]]]; [lia|].
+    exists l. split; [exact H1|]. split; [exact H2|lia].
   Qed.
 
   (* ---- head chains: the level is the number of wrappers followed -------------------------- *)
@@ -574,18 +736,19 @@ Section C18.
 End C18.
 
 (* ====================================================================== *)
-(* 4. the refutation: a batch inside a batch (F13)                         *)
+(* 4. the old defect: a batch inside a batch (F13), before the repair       *)
 (* ====================================================================== *)
 
 (* A wrapper inside a wrapper (well-formed, outside class `Known`: C02 says the decoder returns
-   exactly the innermost messages).  Those messages point into the vector of level 2, which was
-   owned by the MessageSet that `from_vec` (fetch.rs:374-389) took apart: `messages` is moved
-   out, `raw_data: Cow::Owned(v2)` is dropped at the end of `from_vec`, the views dangle.
+   exactly the innermost messages).  Those messages point into the vector of level 2.  BEFORE the
+   repair, `from_vec` (fetch.rs:374) always built `raw_data: Cow::Owned(data)` and dropped
+   `ms.raw_data = Cow::Owned(v2)`: only levels <= 1 were kept alive and the views dangled.  The
+   repaired from_vec hands `Owned(v2)` on (see C18_nested_owned_after_fix_ex below).
    Witness: es_nest = gzip(snappy(es3)) followed by a plain message (157 + 27 bytes on the wire). *)
-Theorem C18_nested_dangling_refuted :
+Theorem C18_nested_dangling_before_fix :
   exists cz comp es,
     codec_ok cz comp /\ wf_entries comp es /\
-    view_level cz 3 true (ser comp es) = Ok 2%nat /\ kept_alive 2 = false /\
+    view_level cz 3 true (ser comp es) = Ok 2%nat /\ kept_alive_before_fix 2 = false /\
     exists m ms, from_slice cz 3 true 0 (ser comp es) = Ok (m :: ms).
 Proof.
   exists (wcz true), wcomp, es_nest.
@@ -594,11 +757,18 @@ Proof.
   eexists. eexists. vm_compute. reflexivity.
 Qed.
 
+(* after the repair the same input is fine: the set owns the vector of level 2 *)
+Example C18_nested_owned_after_fix_ex :
+  owner_level (wcz true) 3 true (ser wcomp es_nest) = Ok (Some 2%nat) /\
+  view_level (wcz true) 3 true (ser wcomp es_nest) = Ok 2%nat.
+Proof. vm_compute. split; reflexivity. Qed.
+
 (* the same in a release build without CRC validation, snappy inside snappy, and what is exposed *)
-Example C18_nested_dangling_release :
+Example C18_nested_dangling_before_fix_release :
   let es := [Wrapper 2 5 [Wrapper 2 5 es3]] in
   wf_entries wcomp es /\ ~ Known es /\
   view_level (wcz false) 3 false (ser wcomp es) = Ok 2%nat /\
+  owner_level (wcz false) 3 false (ser wcomp es) = Ok (Some 2%nat) /\
   from_slice (wcz false) 3 false 1 (ser wcomp es) = Ok [m1; m2].
 Proof.
   split; [wf_tac|]. split.
@@ -609,7 +779,7 @@ Proof.
       + destruct Hin.
       + destruct Hin as [E|[]]. inversion E; subst.
         exact (all_plain_not_Known es3 es3_plain HK''). }
-  split; vm_compute; reflexivity.
+  vm_compute. repeat split; reflexivity.
 Qed.
 
 (* ====================================================================== *)
@@ -622,6 +792,20 @@ Example C18_level_ex :
   view_level (wcz true) 3 true (ser wcomp es_gz) = Ok 1%nat /\
   view_level (wcz true) 3 true (ser wcomp es_sn) = Ok 1%nat /\
   view_level (wcz true) 3 true (ser wcomp es_nest) = Ok 2%nat.
+Proof. vm_compute. repeat split; reflexivity. Qed.
+
+(* C18_views_owned_always / C18_owner_is_view_level on the same inputs: nothing owned for the
+   plain set (the Response owns the bytes), the level-1 vector for one batch, level 2 for two;
+   on arbitrary bytes (not a serialised set) both sides fail alike *)
+Example C18_views_owned_always_ex :
+  owner_level (wcz true) 3 true (ser wcomp es3) = Ok None /\
+  owner_level (wcz true) 3 true (ser wcomp es_gz) = Ok (Some 1%nat) /\
+  owner_level (wcz true) 3 true (ser wcomp es_sn) = Ok (Some 1%nat) /\
+  owner_level (wcz true) 3 true (ser wcomp es_nest) = Ok (Some 2%nat) /\
+  owner_level (wcz true) 3 true (ser wcomp es_bad) = Ok (Some 1%nat) /\
+  owner_level (wcz true) 2 true (ser wcomp es_nest) = Err EOutOfFuel /\
+  map (fun k => owner_level (wcz true) 3 true (firstn k (ser wcomp es_nest))) [0; 156; 157; 300]%nat
+  = [Ok None; Ok None; Ok (Some 2%nat); Ok (Some 2%nat)].
 Proof. vm_compute. repeat split; reflexivity. Qed.
 
 (* C18_plain_views_in_response: every kind of cut *)
@@ -679,11 +863,13 @@ Example C18_level_failures_ex :
   (from_slice (wcz true) 2 true 0 (ser wcomp es_nest) = Err EOutOfFuel /\
    view_level (wcz true) 2 true (ser wcomp es_nest) = Err EOutOfFuel) /\
   (from_slice (wcz true) 2 true 0 bad_crc = Err (EKafka KC_CorruptMessage) /\
-   view_level (wcz true) 2 true bad_crc = Err (EKafka KC_CorruptMessage)) /\
+   view_level (wcz true) 2 true bad_crc = Err (EKafka KC_CorruptMessage) /\
+   owner_level (wcz true) 2 true bad_crc = Err (EKafka KC_CorruptMessage)) /\
   (from_slice (wcz true) 2 true 0 bad_codec = Err EUnsupportedCompression /\
    view_level (wcz true) 2 true bad_codec = Err EUnsupportedCompression) /\
   (from_slice (wcz true) 2 true 0 slack_msg = Panic (tag "debug_assert r.is_empty") /\
-   view_level (wcz true) 2 true slack_msg = Panic (tag "debug_assert r.is_empty")) /\
+   view_level (wcz true) 2 true slack_msg = Panic (tag "debug_assert r.is_empty") /\
+   owner_level (wcz true) 2 true slack_msg = Panic (tag "debug_assert r.is_empty")) /\
   (from_slice (wcz false) 2 true 0 slack_msg = Ok [{| m_offset := 0; m_key := []; m_value := [x61] |}] /\
    view_level (wcz false) 2 true slack_msg = Ok 0%nat).
 Proof. vm_compute. repeat split; reflexivity. Qed.
@@ -712,6 +898,11 @@ Print Assumptions C18_rest_is_suffix.
 Print Assumptions C18_level_defined.
 Print Assumptions C18_level_err.
 Print Assumptions C18_level_panic.
+Print Assumptions C18_views_owned_always.
+Print Assumptions C18_owner_is_view_level.
+Print Assumptions C18_owner_defined.
+Print Assumptions C18_owner_err.
+Print Assumptions C18_owner_panic.
 Print Assumptions C18_plain_views_in_response.
 Print Assumptions C18_wrapper_views_owned.
 Print Assumptions C18_views_owned.
@@ -719,4 +910,4 @@ Print Assumptions C18_level_le_depth.
 Print Assumptions C18_views_owned_depth1.
 Print Assumptions C18_level_is_chain_depth.
 Print Assumptions C18_chain_messages_and_level.
-Print Assumptions C18_nested_dangling_refuted.
+Print Assumptions C18_nested_dangling_before_fix.
